@@ -33,6 +33,12 @@ Section Assoc.
   (* delete(m, k) *)
   Definition adel (m : list (N * V)) (k : N) : list (N * V) :=
     filter (fun p => negb (fst p =? k)) m.
+  (* for k := range m { if k < lo { delete(m, k) } } *)
+  Definition adel_below (m : list (N * V)) (lo : N) : list (N * V) :=
+    filter (fun p => negb (fst p <? lo)) m.
+  (* the keys that loop deletes *)
+  Definition keys_below (m : list (N * V)) (lo : N) : list N :=
+    map fst (filter (fun p => fst p <? lo) m).
 End Assoc.
 
 (* ---------------------------------------------------------------------------------------------
@@ -225,8 +231,9 @@ Definition set_att (st : state) (m : list (N * list vidx)) : state :=
   {| g_att := m; g_thr := g_thr st; g_trace := g_trace st; g_purged := g_purged st; g_panic := g_panic st |}.
 Definition emit (st : state) (ev : event) : state :=
   {| g_att := g_att st; g_thr := g_thr st; g_trace := g_trace st ++ [ev]; g_purged := g_purged st; g_panic := g_panic st |}.
-Definition purge (st : state) (e : epoch) : state :=
-  {| g_att := adel (g_att st) e; g_thr := g_thr st; g_trace := g_trace st; g_purged := e :: g_purged st; g_panic := g_panic st |}.
+Definition purge_below (st : state) (lo : epoch) : state :=
+  {| g_att := adel_below (g_att st) lo; g_thr := g_thr st; g_trace := g_trace st;
+     g_purged := keys_below (g_att st) lo ++ g_purged st; g_panic := g_panic st |}.
 Definition panic (st : state) : state :=
   {| g_att := g_att st; g_thr := g_thr st; g_trace := g_trace st; g_purged := g_purged st; g_panic := true |}.
 
@@ -292,8 +299,8 @@ Definition tstep (spe : N) (i : nat) (r : run) (st : state) : state :=
   | PSubmit =>
       if s_submit sc then set_thr st i (with_pc t PHousekeep) else set_thr st i (with_pc t PDone)
   | PHousekeep =>
-      (* if epoch > 1 { delete(s.attested, epoch-2) } *)
-      let st1 := if 1 <? e then purge st (e - 2) else st in
+      (* if epoch > 1 { for k := range s.attested { if k < epoch-1 { delete(s.attested, k) } } } *)
+      let st1 := if 1 <? e then purge_below st (e - 1) else st in
       set_thr st1 i (with_pc t PDone)
   | PDone => st
   end.
@@ -323,8 +330,9 @@ Definition claim_epoch (spe : N) (rs : list run) (st : state) (i : nat) : option
        end.
 
 (* window_ok: no test-and-mark for epoch e is executed after housekeeping has deleted epoch e
-   (housekeeping of a duty of epoch e+2).  This is exactly the class "an epoch is delivered again
-   after duties two epochs newer have completed" (known finding C01-stale-epoch-redelivery). *)
+   (housekeeping of a duty of epoch e+2 or later).  This is exactly the class "an epoch is delivered
+   again after duties two or more epochs newer have completed" (known finding
+   C01-stale-epoch-redelivery). *)
 Fixpoint window_ok (spe : N) (rs : list run) (sch : list nat) (st : state) : Prop :=
   match sch with
   | [] => True
